@@ -1,6 +1,9 @@
 //! Correspondence harness: calls the real helgoboss-midi crate in-process and prints a transcript
 //! `<request> | <cells>` that the Lean driver replays against the model and the executable specification.
+mod ctors;
+mod gen_conv;
 mod msgs;
+mod nums;
 mod obs;
 
 use obs::Obs;
@@ -23,12 +26,32 @@ pub fn eval_request(st: &mut State, req: &str) -> Option<Obs> {
             o.0.push(msgs::blk_digest(mask, which, s.parse().ok()?) as i64);
             Some(o)
         }
+        ["mk", which, k, a, b, c] => ctors::mk_obs(which, k, a.parse().ok()?, b.parse().ok()?, c.parse().ok()?),
+        ["mkblk", which, k, a] => {
+            let mut o = Obs::new();
+            o.0.push(ctors::mkblk_digest(which, k, a.parse().ok()?)? as i64);
+            Some(o)
+        }
+        ["gen", which, fun, t, c, a, b] => ctors::gen_obs(which, fun, t.parse().ok()?, c.parse().ok()?, a.parse().ok()?, b.parse().ok()?),
+        ["genblk", which, fun, t, c] => {
+            let mut o = Obs::new();
+            o.0.push(ctors::genblk_digest(which, fun, t.parse().ok()?, c.parse().ok()?)? as i64);
+            Some(o)
+        }
+        ["conv", row, x] => nums::conv_obs(row.parse().ok()?, x),
+        ["new", _cfg, t, v] => nums::new_obs(t.parse().ok()?, v.parse().ok()?),
+        ["parse", t, h] => nums::parse_obs(t.parse().ok()?, h),
+        ["display", t, v] => nums::display_obs(t.parse().ok()?, v.parse().ok()?),
+        ["ord", t, a, b] => nums::ord_obs(t.parse().ok()?, a.parse().ok()?, b.parse().ok()?),
+        ["consts", t] => nums::consts_obs(t.parse().ok()?),
+        ["cnconst", i] => nums::cnconst_obs(i.parse().ok()?),
+        ["tu", fun, x, y, z] => ctors::tu_obs(fun, x.parse().ok()?, y.parse().ok()?, z.parse().ok()?),
         _ => None,
     }
 }
 
 fn show_cells(req: &str, o: &Obs) -> String {
-    if req.starts_with("blk ") {
+    if req.starts_with("blk ") || req.starts_with("mkblk ") || req.starts_with("genblk ") {
         // digests are printed as unsigned 64-bit numbers
         format!("{}", o.0[0] as u64)
     } else {
@@ -37,8 +60,9 @@ fn show_cells(req: &str, o: &Obs) -> String {
 }
 
 pub struct Out<'a> {
+    pub st_dummy: (),
     w: BufWriter<std::io::StdoutLock<'a>>,
-    st: State,
+    pub st: State,
     pub evaluations: u64,
 }
 
@@ -62,8 +86,11 @@ fn main() {
     obs::install_panic_hook();
     let args: Vec<String> = std::env::args().collect();
     let stdout = std::io::stdout();
-    let mut out = Out { w: BufWriter::with_capacity(1 << 20, stdout.lock()), st: State::default(), evaluations: 0 };
+    let mut out = Out { st_dummy: (), w: BufWriter::with_capacity(1 << 20, stdout.lock()), st: State::default(), evaluations: 0 };
     let sub = args.get(1).map(|s| s.as_str()).unwrap_or("");
+    let tier = std::env::var("VERIF_TIER").unwrap_or_else(|_| "quick".to_string());
+    let tier = tier.as_str();
+    let seed: u64 = std::env::var("VERIF_SEED").ok().and_then(|s| s.parse().ok()).unwrap_or(1);
     let limit: Option<usize> = args.iter().position(|a| a == "--limit").and_then(|i| args.get(i + 1)).and_then(|s| s.parse().ok());
     match sub {
         // evaluate requests read from stdin (replays, corpus)
@@ -76,6 +103,42 @@ fn main() {
                     continue;
                 }
                 out.req(&req);
+            }
+        }
+        // evaluate the requests given as arguments
+        "eval-args" => {
+            for r in &args[2..] {
+                if eval_request(&mut out.st, r).is_some() {
+                    out.req(r);
+                }
+            }
+        }
+        // expand one block request into its lines: `expand blk <mask> <impl> <s>` | `expand mkblk ..` | `expand genblk ..`
+        "expand" => {
+            let w: Vec<&str> = args[2..].iter().map(|s| s.as_str()).collect();
+            match w.as_slice() {
+                ["blk", _mask, which, s] => {
+                    for d1 in 0..128 { for d2 in 0..128 { out.req(&format!("msg {} {} {} {}", which, s, d1, d2)); } }
+                }
+                ["mkblk", which, k, a] => {
+                    let a: u32 = a.parse().unwrap();
+                    let (nb, nc) = ctors::blk_ranges(k, a);
+                    for b in 0..nb { for c in 0..nc {
+                        let (x, y, z) = ctors::blk_args(k, a, b, c);
+                        out.req(&format!("mk {} {} {} {} {}", which, k, x, y, z));
+                    } }
+                }
+                ["genblk", which, fun, t, c] => {
+                    let tt: u32 = t.parse().unwrap();
+                    let cat = match *fun { "channel_message" => 0, "system_common_message" => 1, _ => 2 };
+                    if ctors::category(tt) == cat && *fun != "system_real_time_message" {
+                        for a in 0..128 { for b in 0..128 { out.req(&format!("gen {} {} {} {} {} {}", which, fun, t, c, a, b)); } }
+                    } else {
+                        out.req(&format!("gen {} {} {} {} 0 0", which, fun, t, c));
+                        out.req(&format!("gen {} {} {} {} 127 127", which, fun, t, c));
+                    }
+                }
+                _ => { eprintln!("cannot expand {:?}", w); std::process::exit(2); }
             }
         }
         // one digest per (implementation, status byte) over all 128 x 128 data bytes
@@ -107,6 +170,114 @@ fn main() {
                     n += 1;
                 }
             }
+        }
+        // every conversion-table row over its source values
+        "conv-lines" => {
+            let mut rng = nums::Rng(seed ^ 0xC0DE);
+            let mut n = 0u64; let mut wide = 0u64;
+            for row in 0..gen_conv::N_ROWS {
+                let (_k, src, _dst) = gen_conv::row_info(row);
+                for x in nums::candidates(src, &mut rng, if tier == "thorough" { 4000 } else { 200 }) {
+                    let req = format!("conv {} {}", row, x);
+                    if eval_request(&mut out.st, &req).is_some() { out.req(&req); n += 1; if x.len() > 6 { wide += 1; } }
+                }
+            }
+            out.stat("evaluations", n); out.stat("nontrivial", n); out.stat("wide_source_values", wide);
+        }
+        "new-lines" => {
+            let cfg = args.get(2).map(|s| s.as_str()).unwrap_or("std");
+            let mut n = 0u64; let mut over = 0u64;
+            for t in 0..gen_conv::N_NEWTYPES {
+                let (_, repr, mx) = gen_conv::newtype_info(t);
+                let top: u64 = if repr == "u8" { 256 } else { 65536 };
+                for v in 0..top { out.req(&format!("new {} {} {}", cfg, t, v)); n += 1; if v > mx { over += 1; } }
+            }
+            out.stat("evaluations", n); out.stat("nontrivial", n); out.stat("out_of_range_arguments", over);
+        }
+        "num-lines" => {
+            let mut n = 0u64;
+            let strings = nums::short_strings(if tier == "thorough" { 5 } else { 4 });
+            for t in 0..gen_conv::N_NEWTYPES {
+                let (_, _, mx) = gen_conv::newtype_info(t);
+                for s in &strings { out.req(&format!("parse {} {}", t, nums::hex(s))); n += 1; }
+                for s in nums::boundary_numerals(mx) { out.req(&format!("parse {} {}", t, nums::hex(&s))); n += 1; }
+                for v in 0..=mx { out.req(&format!("display {} {}", t, v)); n += 1; }
+                out.req(&format!("consts {}", t)); n += 1;
+                if mx <= 127 {
+                    for a in 0..=mx { for b in 0..=mx { out.req(&format!("ord {} {} {}", t, a, b)); n += 1; } }
+                } else {
+                    let mut rng = nums::Rng(seed ^ 0x0FD);
+                    for a in [0u64, 1, 127, 128, 255, 256, 8191, 8192, mx - 1, mx] { for b in [0u64, 1, 127, 128, 255, 256, 8191, 8192, mx - 1, mx] {
+                        out.req(&format!("ord {} {} {}", t, a, b)); n += 1; } }
+                    for _ in 0..(if tier == "thorough" { 2_000_000 } else { 50_000 }) {
+                        let a = rng.below(mx + 1); let b = if rng.below(8) == 0 { a } else { rng.below(mx + 1) };
+                        out.req(&format!("ord {} {} {}", t, a, b)); n += 1;
+                    }
+                }
+            }
+            for i in 0..gen_conv::controller_constants().len() { out.req(&format!("cnconst {}", i)); n += 1; }
+            out.stat("evaluations", n); out.stat("nontrivial", n);
+        }
+        // factory constructors: named (block digests), generic, test_util shorthands
+        "ctor-blocks" => {
+            let impls: &[&str] = if tier == "thorough" { &msgs::IMPLS } else { &["raw", "str"] };
+            let mut evals: u64 = 0;
+            for which in impls {
+                for k in ctors::CTORS {
+                    let blocks: u32 = match k {
+                        "note_off" | "note_on" | "polyphonic_key_pressure" | "control_change" | "program_change"
+                        | "channel_pressure" | "pitch_bend_change" => 16,
+                        "time_code_quarter_frame" => 8,
+                        _ => 1,
+                    };
+                    for a in 0..blocks {
+                        out.req(&format!("mkblk {} {} {}", which, k, a));
+                        let (nb, nc) = ctors::blk_ranges(k, a);
+                        evals += (nb * nc) as u64;
+                    }
+                }
+                for fun in ["channel_message", "system_common_message", "system_real_time_message"] {
+                    for t in (128u32..240).step_by(16).chain(240..256) {
+                        let chans = if fun == "channel_message" { 16 } else { 1 };
+                        for c in 0..chans {
+                            out.req(&format!("genblk {} {} {} {}", which, fun, t, c));
+                            evals += if ctors::category(t) == (match fun { "channel_message" => 0, "system_common_message" => 1, _ => 2 }) && fun != "system_real_time_message" { 16384 } else { 2 };
+                        }
+                    }
+                }
+            }
+            out.stat("evaluations", evals);
+            out.stat("nontrivial", evals);
+        }
+        "tu-lines" => {
+            let mut n = 0u64;
+            let edge8 = [0u32, 15, 16, 127, 128, 255];
+            for fun in ["note_on", "note_off", "control_change", "polyphonic_key_pressure", "short"] {
+                for x in 0..256u32 {
+                    for (y, z) in [(0u32, 0u32), (127, 127), (128, 0), (0, 128), (255, 255)] {
+                        let (p, q, r) = if fun == "short" { (x, y, z) } else { (x, y, z) };
+                        out.req(&format!("tu {} {} {} {}", fun, p, q, r)); n += 1;
+                    }
+                }
+                for y in 0..256u32 {
+                    for x in edge8 {
+                        out.req(&format!("tu {} {} {} {}", fun, x, y, 64)); n += 1;
+                        out.req(&format!("tu {} {} {} {}", fun, x, 64, y)); n += 1;
+                    }
+                }
+            }
+            for fun in ["program_change", "channel_pressure"] {
+                for x in 0..256u32 { for y in 0..256u32 { out.req(&format!("tu {} {} {} 0", fun, x, y)); n += 1; } }
+            }
+            for x in [0u32, 1, 15, 16, 255] {
+                for y in (0..65536u32).step_by(if tier == "thorough" { 1 } else { 7 }).chain([16383, 16384, 65535]) {
+                    out.req(&format!("tu pitch_bend_change {} {} 0", x, y)); n += 1;
+                }
+            }
+            for x in 0..65536u32 { out.req(&format!("tu song_position_pointer {} 0 0", x)); n += 1; }
+            for x in 0..256u32 { out.req(&format!("tu song_select {} 0 0", x)); n += 1; }
+            out.stat("evaluations", n);
+            out.stat("nontrivial", n);
         }
         _ => {
             eprintln!("usage: corr <eval|msg-blocks|msg-lines impl status [--limit n]>");
